@@ -409,6 +409,131 @@ def done_status_type_agrees(ctx, rid):
 
 
 # ------------------------------------------------------------------------------------------------
+# R10.8  the output is moved into place while the transaction that records it is open
+
+def rename_inside_result_transaction(ctx, rid):
+    ctx.rule(rid, "fs::rename(tmp -> target) runs while the transaction that records the new stamp is still open (never after its commit): a kill before the commit then rolls the database back next to the old or the new file, whereas a commit followed by a kill leaves the new stamp next to the old file for ever")
+    prog = ctx.prog
+    R = anchors.record_new_state(prog)
+    ba = BA.of(R)
+    ren = ba.calls(r"std::fs::rename")
+    has_open_txn_param = any(re.fullmatch(r"&mut state::ProcessTransaction(<.*>)?", R.locals[p]) for p in range(1, R.arg_count + 1))
+    commits = ba.calls(r"state::ProcessTransaction::commit")
+    news = ba.calls(r"state::ProcessTransaction::new")
+    ok = False
+    why = ""
+    if has_open_txn_param and not any(ba.dominates(c, ren[0]) for c in commits):
+        ok = True
+        why = "%s renames while it borrows the caller's open transaction (`&mut ProcessTransaction`; commit consumes the transaction by value)" % R.key
+    elif news and any(ba.dominates(n, ren[0]) for n in news) and not any(ba.path([c], [ren[0]], incl=False) is not None for c in commits):
+        ok = True
+        why = "the rename follows ProcessTransaction::new and precedes every commit in %s" % R.key
+    else:
+        why = "the rename in %s is not inside an open transaction (it can run after the commit of the new stamp)" % R.key
+    ctx.ob(rid, "rename-before-commit-of-result", ok, where=ctx.where(R, ren[0]), detail=why)
+    if not has_open_txn_param:
+        return
+    # and the caller commits after the call that renames
+    RR = anchors.result_recorder(prog)
+    rba = BA.of(RR)
+    calls = rba.calls(re.escape(R.key))
+    cm = rba.calls(r"state::ProcessTransaction::commit")
+    ok2 = bool(calls) and bool(cm) and all(rba.path([c], calls, incl=False) is None for c in cm) and any(rba.path([calls[0]], [c], incl=False) is not None for c in cm)
+    ctx.ob(rid, "commit-follows-the-recording-call", ok2, where=ctx.where(RR, calls[0]) if calls else RR.span,
+           detail="commit is reached only after %s returned" % R.key)
+
+
+# ------------------------------------------------------------------------------------------------
+# R12.9  every `m` dependency is descended into
+
+def every_modified_dep_is_descended(ctx, rid):
+    from rules import dirt
+    ctx.rule(rid, "in the dependency loop of the dirtiness routine every Modified edge reaches the recursive call (where the visited-set test raises CyclicDependency): no edge is skipped on the strength of the visited set")
+    d = dirt.Dirt(ctx.prog)
+    D, ba = d.D, d.ba
+    if not d.mode_sw or not d.rec:
+        ctx.ob(rid, "%s|mode-switch-and-recursion" % D.key, False, where=D.span, detail="no DepMode switch / recursive call found")
+        return
+    nexts = set(i for i in ba.all_calls() if any(re.fullmatch(r"(<.* as )?core::iter::traits::iterator::Iterator(>)?::next", p) for p in callee_paths(D.blocks[i]["term"])))
+    for n, (sw, arms, other) in enumerate(d.mode_sw):
+        m_t = arms.get(d.modified_val, other)
+        goal = nexts | set(ba.returns())
+        p = ba.path([m_t], goal, avoid=set(d.rec), incl=True)
+        ctx.ob(rid, "%s|mode-switch#%d|Modified=>recursive-call" % (D.key, n), p is None, where=ctx.where(D, sw),
+               detail="every path of the Modified arm passes the recursive call" if p is None else
+               "a Modified dependency can be left without descending into it: path %s" % " -> ".join("bb%d(%s)" % (x, D.line(x).split(":")[-1]) for x in p), witness=p)
+
+
+# ------------------------------------------------------------------------------------------------
+# R16.7  creating the state directory tolerates losing the race
+
+def state_dir_creation_is_idempotent(ctx, rid):
+    ctx.rule(rid, "ProcessState::init's create_dir of the state directory may fail with AlreadyExists and go on (or is create_dir_all): a check-then-create loses against a concurrent first invocation")
+    prog = ctx.prog
+    I = prog.one(r"state::ProcessState::init")
+    ba = BA.of(I)
+    cds = ba.calls(r"std::fs::create_dir")
+    cont = set(ba.calls(r"state::LockManager::open"))
+    if not cont:
+        raise AnchorError("LockManager::open is not called from %s" % I.key)
+    if not cds:
+        n_all = ba.calls(r"std::fs::create_dir_all")
+        ctx.ob(rid, "%s|state-dir-created" % I.key, bool(n_all), where=I.span, detail="create_dir_all (idempotent)" if n_all else "the state directory is not created in init")
+        return
+    for n, c in enumerate(cds):
+        dest = I.blocks[c]["term"]["dest"]["l"]
+        tnt = taint(I, seeds={dest}, mode="derived")
+        ok = False
+        for sw in sorted(ba.live):
+            es = ba.enum_switch(sw)
+            if not es or es[0]["l"] not in tnt:
+                continue
+            place, arms, other = es
+            if "core::result::Result" not in I.locals[place["l"]]:
+                continue
+            err_t = arms.get(1, other)
+            if ba.path([err_t], cont, incl=True) is not None and not ba.dominates(err_t, min(cont)) is None:
+                # the Err side can go on to open the lock manager
+                if ba.path([err_t], cont, avoid={sw}, incl=True) is not None:
+                    ok = True
+        ctx.ob(rid, "%s|create_dir#%d|Err-can-continue" % (I.key, n), ok, where=ctx.where(I, c),
+               detail="an AlreadyExists failure goes on to open the lock file" if ok else "every failure of create_dir (including AlreadyExists from a concurrent first invocation) is fatal")
+
+
+# ------------------------------------------------------------------------------------------------
+# R18.8  a target is marked as shown only where it was shown (or known to be)
+
+def seen_only_when_shown(ctx, rid):
+    ctx.rule(rid, "in redo-log's record loop a target is added to the already-shown set only on a path that emitted its header (logs::meta) or tested that it was already there: a record that is merely passed over must not hide the target's later build")
+    prog = ctx.prog
+    C = prog.one(r"@bin::log::LogState::catlog")
+    ba = BA.of(C)
+    parse = ba.calls(r"logs::Meta::parse")
+    if not parse:
+        raise AnchorError("Meta::parse is not called from %s" % C.key)
+
+    def on_already(i):
+        t = C.blocks[i]["term"]
+        l = op_local(t["args"][0]) if t.get("args") else None
+        for x in ([l] + ba.ref_chain(l)) if l is not None else []:
+            dd = ba.single_def(x)
+            if dd and dd[0] == "stmt" and dd[3]["k"] == "ref" and any(isinstance(e, str) and e.endswith("LogState.already") for e in dd[3]["place"]["p"]):
+                return True
+        return False
+    ins = [i for i in ba.calls(r"std::collections::hash::set::HashSet::insert") if on_already(i)]
+    con = [i for i in ba.calls(r"std::collections::hash::set::HashSet::contains") if on_already(i)]
+    meta = ba.calls(r"logs::meta")
+    loop_ins = [i for i in ins if ba.path(parse, [i], incl=False) is not None]
+    if not ctx.floor(rid, "insertions into the already-shown set inside the record loop", len(loop_ins), 2):
+        return
+    for n, i in enumerate(loop_ins):
+        p = ba.path(parse, [i], avoid=set(meta) | set(con), incl=False)
+        ctx.ob(rid, "%s|already.insert#%d|after-header-or-membership-test" % (C.key, n), p is None, where=ctx.where(C, i),
+               detail="reached only through logs::meta or a contains() test" if p is None else
+               "the target is marked as shown on a path that printed nothing for it: %s" % " -> ".join("bb%d(%s)" % (x, C.line(x).split(":")[-1]) for x in p[-8:]), witness=p)
+
+
+# ------------------------------------------------------------------------------------------------
 # rules that are necessary conditions of several properties are evaluated once, in the table they were written
 # for, and reported under every property they matter to
 
@@ -469,7 +594,11 @@ TABLE = {
     "C14": [("R14.6", borrow("C02", "R2.3", r"marked-edges-still-listed", "an ifcreate / always edge of an interrupted rebuild must still make the target dirty"))],
     "C09": [("R9.8", borrow("C12", "R12.2", None, "a lock id that is not registered turns a cycle into an endless fcntl wait"))],
     "C17": [("R17.6", ood_lists_every_nonclean), ("R17.7", check_never_refreshes_stamps)],
-    "C18": [("R18.7", done_status_type_agrees)],
+    "C18": [("R18.7", done_status_type_agrees), ("R18.8", seen_only_when_shown)],
+    "C10": [("R10.8", rename_inside_result_transaction),
+            ("R10.9", borrow("C05", "R5.3", None, "a job that dies (non-zero or by signal) has its un-redeclared edges deleted by zap_deps2, so it must be marked failed in the same transaction or it looks clean after the kill"))],
+    "C12": [("R12.9", every_modified_dep_is_descended)],
+    "C16": [("R16.7", state_dir_creation_is_idempotent)],
 }
 
 
